@@ -403,8 +403,15 @@ def ops_table():
         ("dump", nop, lambda t: t.dump(), ["any"], "qt"),
         ("send_apdu", nop, lambda t: t.send_apdu(0, 0xA4, 0x04, 0x00, bytes.fromhex("D2760000850101"), 256), [], "qt"),
     ]
-    T.append(("Type4ATag", lambda: make_t4(10), t4_ops))
-    T.append(("Type4ATag-fwi13", lambda: make_t4(13), [o for o in t4_ops if o[0] in ("ndef_read", "send_apdu")]))
+    t4_ops.insert(1, ("has_changed", need_ndef, lambda t: t.ndef.has_changed, ["True"], "qt"))
+    # the first tag.ndef (SELECT application, SELECT CC, READ CC x2, SELECT NDEF file, READ NLEN, READ data) on cards with
+    # different ISO-DEP retry budgets: every position x kind (a ProtocolError gives up at once) x bursts up to and beyond
+    # n_retry + 1
+    first = [o for o in t4_ops if o[0] in ("ndef_read", "has_changed", "is_present", "dump", "send_apdu")]
+    T.append(("Type4ATag", lambda: make_t4(10), t4_ops, (1, 2, 4, 5)))                       # n_retry 3
+    T.append(("Type4ATag-fwi11", lambda: make_t4(11), first, (1, 2, 3)))                     # n_retry 1
+    T.append(("Type4ATag-fwi9", lambda: make_t4(9), first[:3], (1, 4, 6, 7)))                # n_retry 5
+    T.append(("Type4ATag-fwi13", lambda: make_t4(13), [o for o in t4_ops if o[0] in ("ndef_read", "send_apdu")], (1, 2)))
     # commands and responses chained over several I-blocks (FSC 16/24: 13/21 byte per block, the card chains its answer
     # by 10 byte): every block of a chain is a fault position and must get the full budget n_retry + 1 (tt4.py:93)
     t4_chain = [
@@ -595,6 +602,15 @@ def followups(tag):
     return f
 
 
+def never_raises(cname, oname):
+    """attribute access (tag.ndef, ndef.has_changed, tag.is_present) on every tag type, and the Type 4 operations that
+    report failure by value (dump, format): a persistent failure is the documented None / False, never an exception"""
+    o = oname.split("+")[-1]
+    if o.startswith("ndef_read") or o in ("is_present", "has_changed", "ndef"):
+        return True
+    return "Type4" in cname and o in ("dump", "format_wipe", "format")
+
+
 def scripts_for(n, bursts):
     return [dict(p=p, k=k, b=b, m=m) for p in range(1, n + 1) for k in KINDS for b in bursts for m in MODES]
 
@@ -616,7 +632,8 @@ def gen_traces(tier, only=None):
             clean = list(clf.clean)
             ret = clf.ev[-1]
             const = dict(proto=proto, nRetry=nretry, clean=clean,
-                         cleanRet=dict(kind=ret["kind"], errno=ret["errno"], val=ret["val"]), doc=doc, gone=False)
+                         cleanRet=dict(kind=ret["kind"], errno=ret["errno"], val=ret["val"]), doc=doc, gone=False,
+                         noraise=never_raises(cname, oname))
             base = "%s/%s" % (cname, oname)
             traces.append(dict(id=base + "/clean", const=const, ev=clf.ev))
             meta[base + "/clean"] = dict(cls=cname, op=oname, script=None)
@@ -640,7 +657,7 @@ def gen_traces(tier, only=None):
                     run_op(clf2, tag2, fop)
                     fid = "%s/then-%s" % (tid, fname)
                     fconst = dict(proto=proto, nRetry=nretry, clean=[], cleanRet=dict(kind="ok", errno=0, val="-"),
-                                  doc=fdoc, gone=True)
+                                  doc=fdoc, gone=True, noraise=never_raises(cname, fname))
                     traces.append(dict(id=fid, const=fconst, ev=clf2.ev))
                     meta[fid] = dict(cls=cname, op=oname + "+" + fname, script=dict(gone=k, then=fname))
             for k in range(1, clf.nmac + 1):
@@ -774,7 +791,8 @@ def replay(rep, args):
             proto, nretry, clf, sim, tag = run_one(factory, setup, op, None)
             ret = clf.ev[-1]
             const = dict(proto=proto, nRetry=nretry, clean=list(clf.clean),
-                         cleanRet=dict(kind=ret["kind"], errno=ret["errno"], val=ret["val"]), doc=doc, gone=False)
+                         cleanRet=dict(kind=ret["kind"], errno=ret["errno"], val=ret["val"]), doc=doc, gone=False,
+                         noraise=never_raises(cname, oname))
             sc = dict(r["script"])
             then = sc.pop("then", None)
             p2, n2, clf2, sim2, tag2 = run_one(factory, setup, op, sc)
@@ -783,7 +801,7 @@ def replay(rep, args):
                 clf2.rearm()
                 run_op(clf2, tag2, fop)
                 const = dict(proto=proto, nRetry=nretry, clean=[], cleanRet=dict(kind="ok", errno=0, val="-"),
-                             doc=fdoc, gone=True)
+                             doc=fdoc, gone=True, noraise=never_raises(cname, then))
             tr = dict(id="replay", const=const, ev=clf2.ev)
             verdicts, st = tlc.validate_traces("Trace_TagCmd.tla", "Trace_TagCmd.cfg", PID + "/replay", [tr], shards=1)
             v = verdicts["replay"]
